@@ -548,3 +548,75 @@ def replay(obj, path):
         return 1
     print("no violation on this history")
     return 0
+
+
+# ------------------------------------------------------------------ C12 under destructor faults (implementation alone)
+
+DUMP_EVENTS = 91
+
+
+def fault_event_histories(tier, seed):
+    """scenarios on the change-tracking storages without bulk clears / storage drops (those report nothing), a dump of
+    mask and events of every tracked storage at the end; fault-free first, then with the fault armed at every position
+    of the destroying operation the scenario is about"""
+    rng = random.Random(seed * 7907 + 12)
+    kinds = ["remove", "insert_over", "insert_vacant", "insert_dead", "delete", "delete_many", "delete_many_failing",
+             "delete_all", "maintain"]
+    bases = []
+    for target in range(6, 16):
+        ks = kinds if tier != "quick" else rng.sample(kinds, 4)
+        for kind in ks:
+            h, tpos = ug.scenario(rng, target, kind, rng.choice(["dense", "sparse"]), n_others=rng.randint(0, 2))
+            keep = [(c, p) for (c, p) in h[:tpos + 1]]
+            for c, p in h[tpos + 1:]:
+                if c in (ug.CLEAR, ug.DROP_STORAGE, ug.DROP_WORLD):
+                    continue
+                keep.append((c, p))
+            regs = sorted({p[0] for c, p in keep if c == ug.REG and 6 <= p[0] <= 15})
+            keep += [(DUMP_EVENTS, [s]) for s in regs]
+            bases.append((keep, tpos))
+    exe = common.build_harness(False)
+    lines0 = run_harness(exe, [h for h, _ in bases])
+    out = []
+    for (h, tpos), ln in zip(bases, lines0):
+        out.append(("no fault", h, ln))
+        if ln is None:
+            continue
+        r = dict(hist=h, impl=parse_tr(ln))
+        variants = [hv for _, _, _, hv in ug.fault_variants(h, drops_per_op(r), cap=8 if tier == "quick" else 24, only=tpos)]
+        for hv, l2 in zip(variants, run_harness(exe, variants)):
+            out.append(("fault", hv, l2))
+    return out
+
+
+def fault_event_violation(h, line):
+    """C12 on one transcript: replaying the Inserted / Removed events of a tracked storage over the empty membership
+    gives the mask the storage shows - also when a component destructor panicked in between"""
+    if line is None:
+        return "the harness died"
+    impl = parse_tr(line)
+    pos = 0
+    for code, p in h:
+        if 2 * pos >= len(impl):
+            break
+        out = impl[2 * pos]
+        pos += 1
+        if code == DUMP_EVENTS and out and out[0] == 91:
+            n = out[1]
+            mask = set(out[2:2 + n])
+            ne = out[2 + n]
+            if ne < 0:
+                continue
+            evs = out[3 + n:3 + n + 2 * ne]
+            have = set()
+            for k in range(0, len(evs), 2):
+                kind, idx = evs[k], evs[k + 1]
+                if kind == 0:
+                    have.add(idx)
+                elif kind == 2:
+                    have.discard(idx)
+            if have != mask:
+                return ("storage %d: the events delivered (%s) replay to the members %s but the storage holds %s" % (
+                    p[0], [("Inserted", "Modified", "Removed")[evs[k]] + "(%d)" % evs[k + 1] for k in range(0, len(evs), 2)],
+                    sorted(have), sorted(mask)))
+    return None
